@@ -29,13 +29,15 @@ static int muggle_array_list_get_index(muggle_array_list_t *p_array_list, int in
 	}
 	else
 	{
-		if ((uint64_t)-index > p_array_list->size)
+		// NOTE: negate in 64 bits, -index overflows for INT_MIN
+		uint64_t neg_index = (uint64_t)(-(int64_t)index);
+		if (neg_index > p_array_list->size)
 		{
 			idx = -1;
 		}
 		else
 		{
-			idx = (int)(p_array_list->size - (uint64_t)(-index));
+			idx = (int)(p_array_list->size - neg_index);
 		}
 	}
 
